@@ -100,6 +100,12 @@ class BasicBlock:
 
     def execute(self, *args, **kwargs):
         # Note: The list of statements is ordered and can get CSE or reordered within the block because we know it is straight calculation without control flow (a basic block)
+        # Rows of column vectors arrive as size-1 arrays; newer numpy versions
+        # no longer convert those to scalars implicitly.
+        args = tuple(
+            arg.item() if isinstance(arg, np.ndarray) and arg.size == 1 else arg
+            for arg in args
+        )
         temporary_values = {}
         for name, expr in self._prefix:
             temporary_values[str(name)] = expr(*args, **kwargs, **temporary_values)
@@ -1128,7 +1134,7 @@ class SklearnEKFAdapter(BaseEstimator):
                                 ),
                             ),
                             self.model_.innovations[key],
-                        )
+                        ).item()
                     )
                 )
                 if np.any(self.model_.sensor_prediction_uncertainty[key] < 0.0):
